@@ -59,6 +59,7 @@ static void password_sweep(struct res *r) {
             polyseed_data *s = seed_from_ref(&SEC[2]); r->calls++;
             env_clear_log();
             polyseed_crypt(s, spelling ? nf : pw); r->calls++; r->cases++;
+            if ((E.n_kdf != 1 || E.kdf.pwlen != nl || memcmp(E.kdf.pw, nf, nl)) && E.n_nfkd == 0) res_viol(r, "c18:normaliser-not-consulted", rep, "password of %d bytes with a non-ASCII character at offset %d: the injected NFKD function was never called and what reached the KDF is not the normal form", L, off);
             if (E.n_kdf != 1 || E.kdf.pwlen != nl || memcmp(E.kdf.pw, nf, nl)) { res_viol(r, "c12:password-normalisation", rep, "password of %d bytes with a non-ASCII character at offset %d (%s spelling): the KDF received %zu bytes, NFKD(password) has %zu (or the bytes differ)", L, off, spelling ? "decomposed" : "composed", E.kdf.pwlen, nl); polyseed_free(s); goto next; }
             polyseed_store(s, out[spelling]); polyseed_free(s);
         }
@@ -79,6 +80,8 @@ static int pw_exact(const char *pw, const char *want, size_t wl, struct res *r, 
     env_clear_log(); polyseed_crypt(s, pw); r->calls++; r->cases++;
     int bad = (E.n_kdf != 1 || E.kdf.pwlen != wl || memcmp(E.kdf.pw, want, wl < sizeof E.kdf.pw ? wl : sizeof E.kdf.pw));
     polyseed_free(s);
+    if (bad && E.n_nfkd == 0) { int na = 0; for (const char *q = pw; *q; q++) if (*q & 0x80) na = 1;
+        if (na) { char rep2[900], hx2[800]; size_t pl2 = strlen(pw); hex(pw, pl2 > 390 ? 390 : pl2, hx2); snprintf(rep2, sizeof rep2, "pwx %s", hx2); res_viol(r, "c18:normaliser-not-consulted", rep2, "%s: the password contains non-ASCII characters, the injected NFKD function was never called and what reached the KDF is not the normal form", what); } }
     if (bad) { char rep[900], hx[800]; size_t pl = strlen(pw); hex(pw, pl > 390 ? 390 : pl, hx); snprintf(rep, sizeof rep, "pwx %s", hx);
         size_t d = 0; while (d < wl && d < E.kdf.pwlen && E.kdf.pw[d] == (uint8_t)want[d]) d++;
         res_viol(r, key, rep, "%s: the KDF was called %lu times with a password of %zu bytes; NFKD(password) has %zu bytes; first difference at byte %zu (got 0x%02x, expected 0x%02x)", what, E.n_kdf, E.kdf.pwlen, wl, d, d < E.kdf.pwlen ? E.kdf.pw[d] : 0, d < wl ? (uint8_t)want[d] : 0); return 1; }
@@ -94,7 +97,17 @@ static void password_alphabet(struct res *r) {
     }
     /* the same bytes next to a non-ASCII character (the normaliser is consulted) */
     for (int b = 1; b < 128; b++) { char q[16]; snprintf(q, sizeof q, "%c\xC3\xA9%c", b, b); char nf[32]; size_t nl = u_nfkd(q, nf, sizeof nf - 1); pw_exact(q, nf, nl, r, "c12:password-bytes", "ASCII byte around a non-ASCII character"); }
-    res_sample(r, "all 127 one-byte and 16129 two-byte ASCII passwords, control characters included");
+    /* every code point of the Basic Multilingual Plane (surrogates excluded) as a one-character password and between two letters:
+     * the KDF receives its compatibility decomposition, whatever UTF-8 lead byte it has */
+    for (unsigned cp = 0x80; cp < 0x10000; cp++) {
+        if (cp >= 0xD800 && cp < 0xE000) continue;
+        char q[16]; size_t l = 0;
+        if (cp < 0x800) { q[l++] = (char)(0xC0 | cp >> 6); q[l++] = (char)(0x80 | (cp & 63)); } else { q[l++] = (char)(0xE0 | cp >> 12); q[l++] = (char)(0x80 | (cp >> 6 & 63)); q[l++] = (char)(0x80 | (cp & 63)); }
+        q[l] = 0; char nf[64]; size_t nl = u_nfkd(q, nf, sizeof nf - 1);
+        if (pw_exact(q, nf, nl, r, "c12:password-codepoint", "one-character password")) { if (r->nviol > 40) break; }
+        if (cp < 0x3000 || (cp & 15) == 0) { char e[20]; snprintf(e, sizeof e, "5%sm", q); nl = u_nfkd(e, nf, sizeof nf - 1); pw_exact(e, nf, nl, r, "c12:password-codepoint", "character between two ASCII characters"); }
+    }
+    res_sample(r, "all 127 one-byte and 16129 two-byte ASCII passwords, control characters included; every BMP code point");
 }
 /* passwords whose normal form is as long as the phrase buffer allows, one byte less, one byte more: p ASCII bytes + n accented letters,
  * both spellings; what the KDF receives is what the injected normaliser delivers (it fills at most sizeof(polyseed_str)-1 bytes) */
@@ -119,8 +132,22 @@ static void password_capacity(struct res *r) {
 
 int main(int argc, char **argv) {
     int a = common_args(argc, argv);
-    ref_init(VERIF_ROOT); sec_mark_initial(); env_init(); inject(0); polyseed_enable_features(7);
-    struct res *r = calloc(1, sizeof *r);
+    ref_init(VERIF_ROOT); sec_mark_initial(); env_init(); inject(0);
+    struct res *r = calloc(1, sizeof *r); struct res *r0 = calloc(1, sizeof *r0);
+    /* before any enabling call was ever made in this process (the library's default configuration): the encrypted flag is not a user
+     * feature, so an encrypted seed is stored, loaded, encoded and decoded like any other */
+    { rseed b; memset(&b, 0, sizeof b); for (int i = 0; i < 19; i++) b.secret[i] = (uint8_t)(0x3C + 5 * i); b.secret[18] &= 0x3F; b.birthday = 400;
+      polyseed_data *s0 = seed_from_ref(&b); r0->cases++; r0->calls++;
+      if (!s0) res_viol(r0, "c12:default-config", "default", "cannot load a plain seed in the default configuration");
+      else { polyseed_crypt(s0, "pw"); rseed w = b; ref_crypt(&w, E.mask); uint8_t st[32], ex[32]; polyseed_store(s0, st); ref_storage(&w, ex); r0->calls += 2;
+        polyseed_data *d = NULL; int ls = polyseed_load(st, &d); if (ls == 0) polyseed_free(d); r0->calls++;
+        int ds[2] = { 0, 0 }; for (int li = 0; li < 2; li++) { polyseed_str ph; polyseed_encode(s0, polyseed_get_lang(li ? 2 : 0), 9, ph); d = NULL; ds[li] = li ? polyseed_decode(ph, 9, NULL, &d) : polyseed_decode_explicit(ph, 9, polyseed_get_lang(0), &d); if (ds[li] == 0) polyseed_free(d); r0->calls += 2; }
+        polyseed_crypt(s0, "pw"); uint8_t back[32], orig[32]; polyseed_store(s0, back); ref_storage(&b, orig); polyseed_free(s0);
+        if (memcmp(st, ex, 32) || ls != 0 || ds[0] != 0 || ds[1] != 0 || memcmp(back, orig, 32)) res_viol(r0, "c12:default-config", "default", "no enabling call made yet: encrypted seed %s; load %d, decode_explicit %d, decode %d; second application %s", memcmp(st, ex, 32) ? "differs from the model" : "matches the model", ls, ds[0], ds[1], memcmp(back, orig, 32) ? "does not restore" : "restores");
+        else { r0->validated++; r0->cls[0]++; } }
+      res_sample(r0, "crypt / store / load / encode / decode / crypt before polyseed_enable_features was ever called"); }
+    if (a < argc && !strcmp(argv[a], "default")) { for (int i = 0; i < r0->nviol; i++) printf("REPRODUCED %s: %s\n", r0->v[i].key, r0->v[i].msg); return r0->nviol ? 1 : 0; }
+    polyseed_enable_features(7);
     memset(&SEC[0], 0, sizeof(rseed)); memset(SEC[1].secret, 0xFF, 19); SEC[1].secret[18] = 0x3F; SEC[1].birthday = 1023; SEC[1].features = 7;
     for (int i = 0; i < 19; i++) SEC[2].secret[i] = (uint8_t)(0xA5 ^ (i * 13)); SEC[2].secret[18] &= 0x3F; SEC[2].birthday = 600; SEC[2].features = 16 | 2;
     if (a < argc && !strcmp(argv[a], "pwx")) { password_alphabet(r); password_capacity(r); for (int i = 0; i < r->nviol && i < 3; i++) printf("REPRODUCED %s: %s\n", r->v[i].key, r->v[i].msg); return r->nviol ? 1 : 0; }
@@ -130,6 +157,7 @@ int main(int argc, char **argv) {
         one(&s, m, r, 0); for (int i = 0; i < r->nviol; i++) printf("REPRODUCED %s: %s\n", r->v[i].key, r->v[i].msg); return r->nviol ? 1 : 0;
     }
     out_begin();
+    out_part("default configuration (no enabling call made in the process)", r0, CLS, "");
     par_run(3L * 32 * 256, work_a, NULL, r); out_part("every mask byte position x 256 values x 3 secrets", r, CLS, "");
     memset(r, 0, sizeof *r); par_run(64L * 256, work_b, NULL, r); out_part("byte 18: all 64 secret values x all 256 mask values", r, CLS, "the 150-bit truncation corner");
     memset(r, 0, sizeof *r); par_run(24L * 24, work_c, NULL, r); out_part("all pairs of single mask bits in bytes 17-19 x 3 secrets", r, CLS, "");
